@@ -9,9 +9,11 @@ Mirrors
   forml/io/asset/_access.py                      State.dump / State.commit
 
 Every registry call is expanded into the list of file-system micro-operations (ForML.Fs.Op) that
-posix.py performs, in its order.  `Impl.inplace` is the code as it exists (tag and package written in
-place), `Impl.staged` the repaired code (fixes/C05-atomic-tag-package.diff: write a temporary sibling,
-then `rename`).  Project names, release versions (rank in PEP 440 order), state ids (uuid4 → first
+posix.py performs, in its order.  `Impl.repaired` is the code as it exists in /repo (since the fix
+commits 3387543 = fixes/C05-atomic-tag-package.diff and dc51650 = fixes/C05-project-key-check.diff: tag and
+package are written to a temporary sibling and renamed; `Project.put` compares the project key first),
+`Impl.original` the code before them (kept: the harness detects which variant a tree under test implements,
+and the counterexample theorems are about it).  Project names, release versions (rank in PEP 440 order), state ids (uuid4 → first
 occurrence index) are naturals; `Tag.dumps` bytes are abstracted by a prefix-free code (C18 covers
 the real TOML).  Core Lean only.
 -/
@@ -63,9 +65,9 @@ structure Impl where
   keyFirst : Bool
   deriving DecidableEq, Repr, Inhabited
 
-/-- the code that exists -/
-def Impl.existing : Impl := ⟨false, false⟩
-/-- the code with both repairs -/
+/-- the code before the two fix commits -/
+def Impl.original : Impl := ⟨false, false⟩
+/-- the code that exists (both repairs are in /repo) -/
 def Impl.repaired : Impl := ⟨true, true⟩
 
 /-! ### registry calls as micro-op lists (posix.Registry) -/
@@ -87,21 +89,27 @@ def closeOps (impl : Impl) (fs : Fs) (p v g : Nat) (t : Tag) : List Op :=
     ++ t.sids.map (fun s => .rename (stagedStateP p v s) (stateP p v g s))
     ++ tagWriteOps impl p v g t
 
+/-- `shutil.rmtree(path, ignore_errors=True)`: an operation only when there is a directory to remove (like
+`mkdirP`, the model lists the operations that have an effect) -/
+def rmtreeP (fs : Fs) (path : Path) : List Op := if get fs path = some .dir then [.rmtree path] else []
+
 /-- the package write of `Registry.push` below the release directory -/
-def packageWriteOps (impl : Impl) (p v : Nat) : Pkg → List Op
+def packageWriteOps (impl : Impl) (fs : Fs) (p v : Nat) : Pkg → List Op
   | .file b =>
     if impl.staged then
       [.createEmpty (packageTmpP p v), .append (packageTmpP p v) b, .rename (packageTmpP p v) (packageP p v)]
     else [.createEmpty (packageP p v), .append (packageP p v) b]
   | .dir ms =>
     if impl.staged then
-      .mkdir (packageTmpP p v) :: ms.map (fun m => .copyFile (packageTmpP p v ++ [.member m.1]) m.2)
+      -- `shutil.rmtree(staged, ignore_errors=True)` (a leftover of an interrupted publish), `copytree`, `rename`
+      rmtreeP fs (packageTmpP p v) ++ .mkdir (packageTmpP p v)
+        :: ms.map (fun m => .copyFile (packageTmpP p v ++ [.member m.1]) m.2)
         ++ [.rename (packageTmpP p v) (packageP p v)]
     else .mkdir (packageP p v) :: ms.map (fun m => .copyFile (packageP p v ++ [.member m.1]) m.2)
 
-/-- `Registry.push`: `path.parent.mkdir(parents=True, exist_ok=True)`; `write_bytes` / `copytree` -/
+/-- `Registry.push`: `path.parent.mkdir(parents=True, exist_ok=True)`; `write_bytes` / `rmtree` + `copytree`; `rename` -/
 def pushOps (impl : Impl) (fs : Fs) (p v : Nat) (pkg : Pkg) : List Op :=
-  mkdirP fs (releaseP p v) ++ packageWriteOps impl p v pkg
+  mkdirP fs (releaseP p v) ++ packageWriteOps impl fs p v pkg
 
 /-! ### listings (posix.Path matchers, Registry._listing) -/
 
@@ -192,6 +200,11 @@ def nextGen (fs : Fs) (p v : Nat) : Nat :=
   | none => 1
   | some m => m + 1
 
+/-- `Level.key` with an implicit key: `self._parent.list().last` — the greatest listed key (`Listing` is a sorted
+tuple); `none` = `Listing.Empty` -/
+def latestGen (fs : Fs) (p v : Nat) : Option Nat := maxOf (generationsOf fs p v)
+def latestRel (fs : Fs) (p : Nat) : Option Nat := maxOf (releasesOf fs p)
+
 inductive Step where
   /-- `directory.get(dirProj).put(package)` with `package.manifest = (name, v)` -/
   | publish (dirProj name v : Nat) (pkg : Pkg)
@@ -205,24 +218,33 @@ structure Outcome where
   err : Option Err
   deriving Inhabited
 
-def Outcome.call (o : Outcome) (ops : Fs → List Op) : Outcome :=
-  if o.err.isSome then o else
-    let l := ops o.fs
-    let r := runSome o.fs (atomsAll l)
-    { fs := r.1, calls := o.calls ++ [l], err := if r.2 then none else some .os }
+/-- a sequence of registry calls; the micro-op list of each call is computed on the tree it starts from; the first
+failing system call raises (`Err.os`) and ends the sequence (of the failing call only the atomic operations that were
+performed are listed) -/
+def runCalls (fs : Fs) : List (Fs → List Op) → Outcome
+  | [] => ⟨fs, [], none⟩
+  | c :: rest =>
+    let l := c fs
+    match runSome fs (atomsAll l) with
+    | (fs', true) => let o := runCalls fs' rest; ⟨o.fs, l :: o.calls, o.err⟩
+    | (fs', false) => ⟨fs', [(atomsAll l).take (okCount fs (atomsAll l))], some .os⟩
+
+/-- the registry calls of one training: `Release.dump` → `Registry.write` per state, then `Release.put` →
+`Registry.close` with the number computed from the listing at that moment -/
+def trainCalls (impl : Impl) (p v ord : Nat) (states : List (Nat × Bytes)) : List (Fs → List Op) :=
+  states.map (fun s fs => writeOps fs p v s.1 s.2)
+    ++ [fun fs => closeOps impl fs p v (nextGen fs p v) ⟨ord, states.map (·.1)⟩]
 
 /-- one step of a history on the tree `fs` -/
 def exec (impl : Impl) (fs : Fs) : Step → Outcome
   | .publish dp name v pkg =>
     match publishGuard impl fs dp name v with
     | some e => ⟨fs, [], some e⟩
-    | none => (Outcome.mk fs [] none).call (fun fs => pushOps impl fs name v pkg)
+    | none => runCalls fs [fun fs => pushOps impl fs name v pkg]
   | .train p v ord states =>
     match trainGuard fs p v with
     | some e => ⟨fs, [], some e⟩
-    | none =>
-      let dumped := states.foldl (fun o s => o.call (fun fs => writeOps fs p v s.1 s.2)) (Outcome.mk fs [] none)
-      dumped.call (fun fs => closeOps impl fs p v (nextGen fs p v) ⟨ord, states.map (·.1)⟩)
+    | none => runCalls fs (trainCalls impl p v ord states)
 
 /-- a whole history from a tree; the outcome of every step -/
 def execAll (impl : Impl) : Fs → List Step → Fs × List Outcome
@@ -237,5 +259,22 @@ optionally `cut` bytes of the next `append` -/
 def crashIn (impl : Impl) (fs : Fs) (s : Step) (k : Nat) (cut : Option Nat) : Fs :=
   let atoms := atomsAll (exec impl fs s).calls.flatten
   (runSome fs (crashOps atoms k cut)).1
+
+/-- an event of a crash-recovery history: a step that runs to its end (successfully or raising), or a step during
+which the process dies (`k` atomic micro-ops completed, optionally `cut` bytes of the next write) and after which a
+new process carries on with whatever is on disk -/
+inductive Ev where
+  | step (s : Step)
+  | crash (s : Step) (k : Nat) (cut : Option Nat)
+  deriving Repr, Inhabited
+
+def apply (impl : Impl) (fs : Fs) : Ev → Fs
+  | .step s => (exec impl fs s).fs
+  | .crash s k cut => crashIn impl fs s k cut
+
+/-- the tree after a crash-recovery history -/
+def play (impl : Impl) : Fs → List Ev → Fs
+  | fs, [] => fs
+  | fs, e :: rest => play impl (apply impl fs e) rest
 
 end ForML.Registry
